@@ -63,7 +63,7 @@ P = {
                   'From HV Require Import TxCodec.EthTxModel Ante.SigModel.\nImport ListNotations.\nLocal Open Scope string_scope.',
     'lists': {'cases': {'type': 'list hist', 'check': 'mismatches_groups', 'shard': 40}},
     'search': {'rounds': 3, 'n': 600},
-    'rule': 'five cases in twelve: one signed transaction of one route (eth legacy / access-list / dynamic-fee, cosmos direct / amino, EIP-712 via '
+    'rule': 'one mutation case in five runs in the ZERO-FEE regime (fee market without base fee, minimum gas price 0, every transaction of the case offers gas price 0: no rule about signatures or sequences may lean on the fee; the empty-fee envelope mutant is then the canonical envelope and is left out); five cases in twelve: one signed transaction of one route (eth legacy / access-list / dynamic-fee, cosmos direct / amino, EIP-712 via '
             'Web3 extension / via the ethsecp256k1 key) on a real app through the real ante handler: every single-field mutation on its own branch of '
             'the state (eth: nonce, prices, gas, to, value, data, access list, chain id field or V, V/R/S tweaks, s-malleation, type change, ten '
             'envelope fields; cosmos: message, memo, fee, gas, timeout, signer-info sequence and key, signature bytes, extension fields), the same '
